@@ -222,12 +222,9 @@ fn finalize_synchronization(
     insertion_ctx: &InsertionContext,
     unassigned: HashSet<Job>,
 ) {
-    new_insertion_ctx.solution.unassigned.extend(
-        unassigned
-            .into_iter()
-            .chain(insertion_ctx.solution.required.iter().cloned())
-            .map(|job| (job, UnassignmentInfo::Unknown)),
-    );
+    // NOTE: required jobs of the source are already tracked by the new context (as required, unassigned or ignored)
+    let _ = insertion_ctx;
+    new_insertion_ctx.solution.unassigned.extend(unassigned.into_iter().map(|job| (job, UnassignmentInfo::Unknown)));
 
     new_insertion_ctx.restore();
 
